@@ -465,6 +465,23 @@ EdgeStaleBuild(x, y) ==
           IN IF IsValid(pos) /\ Legal(pos) = {} THEN pos ELSE bad
 
 (***************************************************************************)
+(* F_EPRANK2: an e.p. capture is available, the mover's king stands on the *)
+(* same rank as the two pawns, and TWO enemy rooks/queens stand on that     *)
+(* rank too (the pinning one need not be the first one a scan meets).      *)
+(***************************************************************************)
+EpRank2Coarse == EpCoarse
+EpRank2Fine(x) == {<<kf, f1, f2, t1, t2>> \in (0..7) \X (0..7) \X (0..7) \X {R, Q} \X {R, Q} : f1 < f2 /\ kf \notin {f1, f2}}
+EpRank2Build(x, y) ==
+  LET side == x[1]  vf == x[2]  opp == Other(side)  r == EpSrcRank(side)
+      victim == MkSq(vf, r)
+      c0 == Place(EmptyCells, victim, MkCell(opp, P))
+      c1 == IF x[3] = 1 /\ vf > 0 THEN Place(c0, MkSq(vf - 1, r), MkCell(side, P)) ELSE c0
+      c2 == IF x[4] = 1 /\ vf < 7 THEN Place(c1, MkSq(vf + 1, r), MkCell(side, P)) ELSE c1
+      k == MkSq(y[1], r)  a == MkSq(y[2], r)  b == MkSq(y[3], r)
+  IN IF c2[k] # 0 \/ c2[a] # 0 \/ c2[b] # 0 THEN MkPos(EmptyCells, side, 0, -1, 0, 1)
+     ELSE Park(Place(Place(Place(c2, k, MkCell(side, K)), a, MkCell(opp, y[4])), b, MkCell(opp, y[5])), opp, side, 0, victim, 0, 1)
+
+(***************************************************************************)
 (* F_PROMOEP: a promotion is available while an e.p. mark is pending.      *)
 (***************************************************************************)
 PromoEpCoarse == {<<side, f>> \in {0, 1} \X (0..7) : TRUE}
@@ -622,17 +639,17 @@ RawBuild(x, y) ==
                      IF back = -1 \/ c[back] \in {MkCell(0, K), MkCell(1, K)} THEN sk
                      ELSE [sk EXCEPT !.cells = Place(c, back, y[2])]
 
-FamilyNames == {"EP", "EPEDGE", "ONLYEP", "PIN", "CASTLE", "PROMO", "MAT", "CHK", "AMBIG", "RAW", "MINOR", "MULTICHK", "ROOKCAP", "EPCHK", "STALEMIN", "EPX", "EPCHKX", "PINMATE", "DBLCHK", "DBLPIN", "ONLYDBL", "PROMOEP", "CASTLEEP", "BATTERY", "EDGEPAWN", "ONLYPROMO", "EPEVADE", "ONLYEPCHK", "ONLYEPCHKPRE", "ONLYCAP", "EDGESTALE"}
+FamilyNames == {"EP", "EPEDGE", "ONLYEP", "PIN", "CASTLE", "PROMO", "MAT", "CHK", "AMBIG", "RAW", "MINOR", "MULTICHK", "ROOKCAP", "EPCHK", "STALEMIN", "EPX", "EPCHKX", "PINMATE", "DBLCHK", "DBLPIN", "ONLYDBL", "PROMOEP", "CASTLEEP", "BATTERY", "EDGEPAWN", "ONLYPROMO", "EPEVADE", "ONLYEPCHK", "ONLYEPCHKPRE", "ONLYCAP", "EDGESTALE", "EPRANK2"}
 Coarse(f) ==
   CASE f = "EP" -> EpCoarse [] f = "EPEDGE" -> EdgeCoarse [] f = "ONLYEP" -> OnlyEpCoarse
     [] f = "PIN" -> PinCoarse [] f = "CASTLE" -> CastleCoarse [] f = "PROMO" -> PromoCoarse
-    [] f = "MAT" -> MatCoarse [] f = "CHK" -> ChkCoarse [] f = "AMBIG" -> AmbigCoarse [] f = "RAW" -> RawCoarse [] f = "MINOR" -> MinorCoarse [] f = "MULTICHK" -> MultiCoarse [] f = "ROOKCAP" -> RookCapCoarse [] f = "EPCHK" -> EpChkCoarse [] f = "STALEMIN" -> StaleCoarse [] f = "EPX" -> EpCoarse [] f = "EPCHKX" -> EpChkCoarse [] f = "PINMATE" -> PinMateCoarse [] f = "DBLCHK" -> DblCoarse [] f = "DBLPIN" -> DblPinCoarse [] f = "ONLYDBL" -> OnlyDblCoarse [] f = "PROMOEP" -> PromoEpCoarse [] f = "CASTLEEP" -> CastleEpCoarse [] f = "BATTERY" -> BatteryCoarse [] f = "EDGEPAWN" -> EdgePawnCoarse [] f = "ONLYPROMO" -> OnlyPromoCoarse [] f = "EPEVADE" -> EpEvadeCoarse [] f \in {"ONLYEPCHK", "ONLYEPCHKPRE"} -> OnlyEpChkCoarse [] f = "ONLYCAP" -> OnlyCapCoarse [] f = "EDGESTALE" -> EdgeStaleCoarse
+    [] f = "MAT" -> MatCoarse [] f = "CHK" -> ChkCoarse [] f = "AMBIG" -> AmbigCoarse [] f = "RAW" -> RawCoarse [] f = "MINOR" -> MinorCoarse [] f = "MULTICHK" -> MultiCoarse [] f = "ROOKCAP" -> RookCapCoarse [] f = "EPCHK" -> EpChkCoarse [] f = "STALEMIN" -> StaleCoarse [] f = "EPX" -> EpCoarse [] f = "EPCHKX" -> EpChkCoarse [] f = "PINMATE" -> PinMateCoarse [] f = "DBLCHK" -> DblCoarse [] f = "DBLPIN" -> DblPinCoarse [] f = "ONLYDBL" -> OnlyDblCoarse [] f = "PROMOEP" -> PromoEpCoarse [] f = "CASTLEEP" -> CastleEpCoarse [] f = "BATTERY" -> BatteryCoarse [] f = "EDGEPAWN" -> EdgePawnCoarse [] f = "ONLYPROMO" -> OnlyPromoCoarse [] f = "EPEVADE" -> EpEvadeCoarse [] f \in {"ONLYEPCHK", "ONLYEPCHKPRE"} -> OnlyEpChkCoarse [] f = "ONLYCAP" -> OnlyCapCoarse [] f = "EDGESTALE" -> EdgeStaleCoarse [] f = "EPRANK2" -> EpRank2Coarse
 Fine(f, x) ==
   CASE f = "EP" -> EpFine(x) [] f = "EPEDGE" -> EdgeFine(x) [] f = "ONLYEP" -> OnlyEpFine(x)
     [] f = "PIN" -> PinFine(x) [] f = "CASTLE" -> CastleFine(x) [] f = "PROMO" -> PromoFine(x)
-    [] f = "MAT" -> MatFine(x) [] f = "CHK" -> ChkFine(x) [] f = "AMBIG" -> AmbigFine(x) [] f = "RAW" -> RawFine(x) [] f = "MINOR" -> MinorFine(x) [] f = "MULTICHK" -> MultiFine(x) [] f = "ROOKCAP" -> RookCapFine(x) [] f = "EPCHK" -> EpChkFine(x) [] f = "STALEMIN" -> StaleFine(x) [] f = "EPX" -> EpFine(x) [] f = "EPCHKX" -> EpChkFine(x) [] f = "PINMATE" -> PinMateFine(x) [] f = "DBLCHK" -> DblFine(x) [] f = "DBLPIN" -> DblPinFine(x) [] f = "ONLYDBL" -> OnlyDblFine(x) [] f = "PROMOEP" -> PromoEpFine(x) [] f = "CASTLEEP" -> CastleEpFine(x) [] f = "BATTERY" -> BatteryFine(x) [] f = "EDGEPAWN" -> EdgePawnFine(x) [] f = "ONLYPROMO" -> OnlyPromoFine(x) [] f = "EPEVADE" -> EpEvadeFine(x) [] f \in {"ONLYEPCHK", "ONLYEPCHKPRE"} -> OnlyEpChkFine(x) [] f = "ONLYCAP" -> OnlyCapFine(x) [] f = "EDGESTALE" -> EdgeStaleFine(x)
+    [] f = "MAT" -> MatFine(x) [] f = "CHK" -> ChkFine(x) [] f = "AMBIG" -> AmbigFine(x) [] f = "RAW" -> RawFine(x) [] f = "MINOR" -> MinorFine(x) [] f = "MULTICHK" -> MultiFine(x) [] f = "ROOKCAP" -> RookCapFine(x) [] f = "EPCHK" -> EpChkFine(x) [] f = "STALEMIN" -> StaleFine(x) [] f = "EPX" -> EpFine(x) [] f = "EPCHKX" -> EpChkFine(x) [] f = "PINMATE" -> PinMateFine(x) [] f = "DBLCHK" -> DblFine(x) [] f = "DBLPIN" -> DblPinFine(x) [] f = "ONLYDBL" -> OnlyDblFine(x) [] f = "PROMOEP" -> PromoEpFine(x) [] f = "CASTLEEP" -> CastleEpFine(x) [] f = "BATTERY" -> BatteryFine(x) [] f = "EDGEPAWN" -> EdgePawnFine(x) [] f = "ONLYPROMO" -> OnlyPromoFine(x) [] f = "EPEVADE" -> EpEvadeFine(x) [] f \in {"ONLYEPCHK", "ONLYEPCHKPRE"} -> OnlyEpChkFine(x) [] f = "ONLYCAP" -> OnlyCapFine(x) [] f = "EDGESTALE" -> EdgeStaleFine(x) [] f = "EPRANK2" -> EpRank2Fine(x)
 Build(f, x, y) ==
   CASE f = "EP" -> EpBuild(x, y) [] f = "EPEDGE" -> EdgeBuild(x, y) [] f = "ONLYEP" -> OnlyEpBuild(x, y)
     [] f = "PIN" -> PinBuild(x, y) [] f = "CASTLE" -> CastleBuild(x, y) [] f = "PROMO" -> PromoBuild(x, y)
-    [] f = "MAT" -> MatBuild(x, y) [] f = "CHK" -> ChkBuild(x, y) [] f = "AMBIG" -> AmbigBuild(x, y) [] f = "RAW" -> RawBuild(x, y) [] f = "MINOR" -> MinorBuild(x, y) [] f = "MULTICHK" -> MultiBuild(x, y) [] f = "ROOKCAP" -> RookCapBuild(x, y) [] f = "EPCHK" -> EpChkBuild(x, y) [] f = "STALEMIN" -> StaleBuild(x, y) [] f = "EPX" -> EpxBuild(x, y) [] f = "EPCHKX" -> EpChkxBuild(x, y) [] f = "PINMATE" -> PinMateBuild(x, y) [] f = "DBLCHK" -> DblBuild(x, y) [] f = "DBLPIN" -> DblPinBuild(x, y) [] f = "ONLYDBL" -> OnlyDblBuild(x, y) [] f = "PROMOEP" -> PromoEpBuild(x, y) [] f = "CASTLEEP" -> CastleEpBuild(x, y) [] f = "BATTERY" -> BatteryBuild(x, y) [] f = "EDGEPAWN" -> EdgePawnBuild(x, y) [] f = "ONLYPROMO" -> OnlyPromoBuild(x, y) [] f = "EPEVADE" -> EpEvadeBuild(x, y) [] f = "ONLYEPCHK" -> OnlyEpChkBuild(x, y) [] f = "ONLYEPCHKPRE" -> OnlyEpChkPreBuild(x, y) [] f = "ONLYCAP" -> OnlyCapBuild(x, y) [] f = "EDGESTALE" -> EdgeStaleBuild(x, y)
+    [] f = "MAT" -> MatBuild(x, y) [] f = "CHK" -> ChkBuild(x, y) [] f = "AMBIG" -> AmbigBuild(x, y) [] f = "RAW" -> RawBuild(x, y) [] f = "MINOR" -> MinorBuild(x, y) [] f = "MULTICHK" -> MultiBuild(x, y) [] f = "ROOKCAP" -> RookCapBuild(x, y) [] f = "EPCHK" -> EpChkBuild(x, y) [] f = "STALEMIN" -> StaleBuild(x, y) [] f = "EPX" -> EpxBuild(x, y) [] f = "EPCHKX" -> EpChkxBuild(x, y) [] f = "PINMATE" -> PinMateBuild(x, y) [] f = "DBLCHK" -> DblBuild(x, y) [] f = "DBLPIN" -> DblPinBuild(x, y) [] f = "ONLYDBL" -> OnlyDblBuild(x, y) [] f = "PROMOEP" -> PromoEpBuild(x, y) [] f = "CASTLEEP" -> CastleEpBuild(x, y) [] f = "BATTERY" -> BatteryBuild(x, y) [] f = "EDGEPAWN" -> EdgePawnBuild(x, y) [] f = "ONLYPROMO" -> OnlyPromoBuild(x, y) [] f = "EPEVADE" -> EpEvadeBuild(x, y) [] f = "ONLYEPCHK" -> OnlyEpChkBuild(x, y) [] f = "ONLYEPCHKPRE" -> OnlyEpChkPreBuild(x, y) [] f = "ONLYCAP" -> OnlyCapBuild(x, y) [] f = "EDGESTALE" -> EdgeStaleBuild(x, y) [] f = "EPRANK2" -> EpRank2Build(x, y)
 =============================================================================
